@@ -2,6 +2,7 @@
 Spec: Call.tla (Draw / PerCall / Usage / ResultOK.pos), MC_Call (FixedConsumption), Trace_Call."""
 import concurrent.futures
 import vt
+import mpicommon
 from callcommon import run_call_check
 
 LEVEL = "model_checking"
@@ -9,7 +10,7 @@ TYPES = [("f", "float"), ("d", "double"), ("l", "long double")]
 BUILDS = [(("drv_c10_" + s, ["drv_c10.cpp"]), {"flags": ["-O0", "-DVT_TYPE=" + t]}) for s, t in TYPES]
 
 
-def run(chk, replay=None):
+def run_main(chk, replay=None):
     thorough = chk.tier == "thorough"
     chk.cov["checker_cmd"] = "tlc MC_Call; tlc Trace_Call (TRACE=out/C10/trace.ndjson)"
     chk.cov["trusted_base"] = ["TLC", "counting<E> wrapper counts raw engine outputs", "libstdc++ generate_canonical (the check notices, not predicts, a different library)"]
@@ -51,6 +52,15 @@ def run(chk, replay=None):
         if r2.rc == 0:
             raise vt.MachineryError("binding self-test: corrupted trace accepted")
         chk.cov["binding_selftest"] = "one raw draw removed at event %d: rejected (matched %s)" % (i + 1, r2.matched)
+
+
+def run(chk, replay=None):
+    if mpicommon.is_mpi_replay(replay):
+        mpicommon.mpi_leg(chk, "C10:mpi", replay=replay)
+        return
+    run_main(chk, replay=replay)
+    if not replay and not chk.violations:
+        mpicommon.legs(chk, "C10:mpi")
 
 
 def replay(chk, path):
